@@ -150,3 +150,117 @@ mod with_loom {
 		}
 	}
 }
+
+// A reader-writer lock for the loom build whose upgradable read lock admits concurrent readers, as
+// parking_lot's does (the shim above takes the write lock for it, which hides every interleaving of a
+// reader with a thread holding an upgradable lock). Explicit imports take precedence over the glob
+// import above.
+#[cfg(all(feature = "loom", pdb_verif))]
+pub use self::verif_faithful::{
+	RwLock, RwLockReadGuard, RwLockUpgradableReadGuard, RwLockWriteGuard,
+};
+
+#[cfg(all(feature = "loom", pdb_verif))]
+mod verif_faithful {
+	use std::ops::{Deref, DerefMut};
+
+	/// `writers` serialises writers and upgradable readers; `data` is the reader-writer lock proper.
+	#[derive(Debug)]
+	pub struct RwLock<T> {
+		data: loom::sync::RwLock<T>,
+		writers: loom::sync::Mutex<()>,
+	}
+
+	impl<T: Default> Default for RwLock<T> {
+		fn default() -> Self {
+			Self::new(T::default())
+		}
+	}
+
+	impl<T> RwLock<T> {
+		pub fn new(val: T) -> Self {
+			RwLock { data: loom::sync::RwLock::new(val), writers: loom::sync::Mutex::new(()) }
+		}
+
+		pub fn read(&self) -> RwLockReadGuard<T> {
+			RwLockReadGuard(self.data.read().unwrap())
+		}
+
+		pub fn upgradable_read(&self) -> RwLockUpgradableReadGuard<T> {
+			let token = self.writers.lock().unwrap();
+			let guard = self.data.read().unwrap();
+			RwLockUpgradableReadGuard { lock: self, guard: Some(guard), token: Some(token) }
+		}
+
+		pub fn write(&self) -> RwLockWriteGuard<T> {
+			let token = self.writers.lock().unwrap();
+			let guard = self.data.write().unwrap();
+			RwLockWriteGuard { lock: self, guard: Some(guard), token: Some(token) }
+		}
+
+		pub fn is_locked(&self) -> bool {
+			!self.data.try_write().is_ok()
+		}
+	}
+
+	#[derive(Debug)]
+	pub struct RwLockReadGuard<'a, T>(loom::sync::RwLockReadGuard<'a, T>);
+
+	impl<'a, T> Deref for RwLockReadGuard<'a, T> {
+		type Target = T;
+		fn deref(&self) -> &T {
+			self.0.deref()
+		}
+	}
+
+	#[derive(Debug)]
+	pub struct RwLockUpgradableReadGuard<'a, T> {
+		lock: &'a RwLock<T>,
+		guard: Option<loom::sync::RwLockReadGuard<'a, T>>,
+		token: Option<loom::sync::MutexGuard<'a, ()>>,
+	}
+
+	impl<'a, T> RwLockUpgradableReadGuard<'a, T> {
+		pub fn upgrade(mut s: Self) -> RwLockWriteGuard<'a, T> {
+			// No other writer or upgradable reader can slip in: the token is kept.
+			drop(s.guard.take());
+			let guard = s.lock.data.write().unwrap();
+			RwLockWriteGuard { lock: s.lock, guard: Some(guard), token: s.token.take() }
+		}
+	}
+
+	impl<'a, T> Deref for RwLockUpgradableReadGuard<'a, T> {
+		type Target = T;
+		fn deref(&self) -> &T {
+			self.guard.as_ref().unwrap().deref()
+		}
+	}
+
+	#[derive(Debug)]
+	pub struct RwLockWriteGuard<'a, T> {
+		lock: &'a RwLock<T>,
+		guard: Option<loom::sync::RwLockWriteGuard<'a, T>>,
+		token: Option<loom::sync::MutexGuard<'a, ()>>,
+	}
+
+	impl<'a, T> RwLockWriteGuard<'a, T> {
+		pub fn downgrade_to_upgradable(mut s: Self) -> RwLockUpgradableReadGuard<'a, T> {
+			drop(s.guard.take());
+			let guard = s.lock.data.read().unwrap();
+			RwLockUpgradableReadGuard { lock: s.lock, guard: Some(guard), token: s.token.take() }
+		}
+	}
+
+	impl<'a, T> Deref for RwLockWriteGuard<'a, T> {
+		type Target = T;
+		fn deref(&self) -> &T {
+			self.guard.as_ref().unwrap().deref()
+		}
+	}
+
+	impl<'a, T> DerefMut for RwLockWriteGuard<'a, T> {
+		fn deref_mut(&mut self) -> &mut T {
+			self.guard.as_mut().unwrap().deref_mut()
+		}
+	}
+}
